@@ -61,7 +61,10 @@ def test_ratios(n=150, seed=2):
     forms = ["C <= (x + y) / z", "(x - y) / z < C", "round((x + y) / z) == K", "math.floor(x / z) >= K",
              "math.ceil((x + C) / z) < K", "int((x + y) / z) != K", "(x + y) / z == C",
              "min(x / z, C) < y / 1", "float('inf') > x + y", "x * y > C", "round(x) + math.floor(y) <= K",
-             "abs(x - y) >= C", "(x / 4 + y / 4) * 4 == x + y"]
+             "abs(x - y) >= C", "(x / 4 + y / 4) * 4 == x + y",
+             # floor division / modulo of reals (python: a // b == floor(a / b))
+             "(x + y) // 2 == K", "x * 3 // 2 >= K", "(x + C) // z < K", "5 // z == K", "x % 2 < C",
+             "(x * 6 * y) // 2 <= K" if False else "(x + y) * 3 // 2 - x // 1 <= K", "divmod(x, 2)[0] == K"]
     for k in range(n):
         src = rng.choice(forms).replace("C", str(rng.choice([0.5, 1, 2.25, -1.5, 3]))).replace("K", str(rng.randint(-3, 4)))
 
